@@ -36,8 +36,11 @@ def run(ctx):
     # a Config object run on a table with axes and then on one without: the tests that need the axes drop out
     n_re, f_re = fs.object_reuse_failures(rng, 40 if tier == "quick" else 400)
     extra += f_re
+    # the library's own position tests (no `inp` parameter in their signatures) as the entries that cannot run
+    n_pos, f_pos = fs.position_test_isolation_failures(rng, 30 if tier == "quick" else 300)
+    extra += f_pos
     r1["failures"] += extra
-    r1["evaluations"] += 2 * len(cases) + 2 * len(orph) + n_re
+    r1["evaluations"] += 2 * len(cases) + 2 * len(orph) + n_re + n_pos
     nfault = sum(1 for c in cases for cx in c["cfg"] for e in cx["entries"] if e["kind"] != "call" or e["fault"] or e["stream"] == "nope")
     out = adapters.merge(
         [r1],
